@@ -115,7 +115,7 @@ WORKC="$FUZZ_DIR/corpus-work/$TARGET-$$"
 rm -rf "$WORKC"; mkdir -p "$WORKC/corpus" "$WORKC/art"
 [ -d "$VERIF_DIR/corpus/$TARGET" ] && cp "$VERIF_DIR/corpus/$TARGET"/* "$WORKC/corpus/" 2>/dev/null
 CLOG="$WORKC/fuzz.log"
-COMMON=(-seed="$SEED" -max_len="$MAXLEN" -timeout=10 -rss_limit_mb=4096 -artifact_prefix="$WORKC/art/" -print_final_stats=1 -mutate_depth=3)
+COMMON=(-seed="$SEED" -max_len="$MAXLEN" -timeout=25 -rss_limit_mb=4096 -artifact_prefix="$WORKC/art/" -print_final_stats=1 -mutate_depth=3)
 t0=$(date +%s)
 if [ "$TIER" = "thorough" ]; then
   (cd "$WORKC" && "$BIN" "${COMMON[@]}" -jobs="${VERIF_FUZZ_JOBS:-16}" -workers="${VERIF_FUZZ_JOBS:-16}" -max_total_time="${VERIF_FUZZ_TIME:-600}" corpus >"$CLOG" 2>&1); crc=$?
@@ -143,16 +143,32 @@ EOF
 stats="$stats,\"replayed\":$replayed,\"wall_s\":$((t1 - t0))"
 
 rc=0
+spurious=0
 shopt -s nullglob
 arts=("$WORKC"/art/*)
 if [ ${#arts[@]} -gt 0 ]; then
   mkdir -p "$FAILDIR"
   for a in "${arts[@]}"; do
     b="$(basename "$a")"
-    cp "$a" "$FAILDIR/$b"
+    # Every artifact is confirmed by a strict single replay in a fresh process
+    # with a generous time limit: under heavy machine load libFuzzer reports
+    # "timeouts" for inputs that take a millisecond, and those say nothing.
+    ( unset VERIF_FUZZ_TOLERATE; "$BIN" -timeout=120 -rss_limit_mb=4096 -artifact_prefix="$WORKC/art/confirm-" "$a" >"$WORKC/confirm.log" 2>&1 ); arc=$?
     case "$b" in
-      timeout-*|oom-*|slow-unit-*) echo "FUZZ-INCONCLUSIVE target=$TARGET input=$FAILDIR/$b"; [ $rc -eq 0 ] && rc=2 ;;
-      *) grep -m3 "FUZZ-PANIC" "$CLOG" >&2; echo "FUZZ-CRASH target=$TARGET input=$FAILDIR/$b"; rc=1 ;;
+      timeout-*|oom-*|slow-unit-*)
+        if [ $arc -eq 0 ]; then
+          spurious=$((spurious + 1))
+        else
+          cp "$a" "$FAILDIR/$b"
+          echo "FUZZ-INCONCLUSIVE target=$TARGET input=$FAILDIR/$b"; [ $rc -eq 0 ] && rc=2
+        fi ;;
+      *)
+        cp "$a" "$FAILDIR/$b"
+        if [ $arc -ne 0 ]; then
+          grep -m3 "FUZZ-PANIC" "$CLOG" >&2; echo "FUZZ-CRASH target=$TARGET input=$FAILDIR/$b"; rc=1
+        else
+          echo "FUZZ-INCONCLUSIVE target=$TARGET input=$FAILDIR/$b (crash artifact that does not reproduce on replay)"; [ $rc -eq 0 ] && rc=2
+        fi ;;
     esac
   done
 elif [ $crc -ne 0 ]; then
@@ -160,6 +176,7 @@ elif [ $crc -ne 0 ]; then
   echo "FUZZ-INCONCLUSIVE target=$TARGET: libFuzzer ended with status $crc without leaving an artifact"
   rc=2
 fi
+stats="$stats,\"spurious_timeouts\":$spurious"
 [ -z "${VERIF_FUZZ_KEEP:-}" ] && rm -rf "$WORKC"
 summary $rc "$TIER" "$stats"
 exit $rc
